@@ -53,6 +53,7 @@ def gen_source(rng, features=(), size=10):
 #   * a bracketed expression inside a method that continues on a line indented less than the def (valid Python);
 #   * a comparison `name == e` / `name >= e` as a call argument where the callee has a parameter spelled `name`
 #     and `name` is a local of the caller;
+#   * a function whose last body statement is a compound statement with a dedented comment line inside its block;
 #   * attribute access with blanks around the dot (`box . size`) and a chain continued on the next line inside
 #     parentheses, on a receiver whose class is statically evident.
 HELPER_MODULE = "hlp"
@@ -169,6 +170,25 @@ def gen_scenario(rng, star=None):
             "        %s = %s" % (p2, p1),
             "    return %s" % p2,
         ]
+        # a function whose LAST body statement is compound and holds, inside its block, a comment indented less than
+        # the function body (commented-out code): the lines below the comment still belong to the function
+        kindc = rng.choice(["for", "if", "while", "with", "try"])
+        head = {"for": "for %s in %s:" % (v, p2), "if": "if %s:" % p1, "while": "while %s:" % p1,
+                "with": "with %s as %s:" % (p1, v), "try": "try:"}[kindc]
+        sec9 = [
+            "def tally(%s, %s):" % (p1, p2),
+            "    %s = %s" % (loc, p1),
+            "    " + head,
+            "        %s = %s" % (fl, loc),
+            " " * rng.choice([0, 0, 2]) + "# %s = 0" % fl,
+            "        %s = %s + %s" % (loc, fl, p1),
+        ]
+        if rng.random() < 0.5:
+            sec9.append("")
+        sec9.append("        %s = %s" % (p2, loc))
+        if kindc == "try":
+            sec9 += ["    finally:", "        %s = %s" % (loc, p2)]
+        sections.append(sec9)
         rng.shuffle(sections)
         for sec in sections:
             L.extend(sec)
